@@ -20,7 +20,7 @@ META = {"text": "Each reported counter-example (replay path + printed transition
 
 def run(ctx):
     quick = ctx.quick
-    progs = M.programs(ctx, 25 if quick else 100, 3, 4)
+    progs = M.programs(ctx, 25 if quick else 100, 3, 4, kinds=M.ALL_KINDS)
     ref = M.reference(ctx, progs)
     sel = [i for i in range(len(progs)) if any(o["end"] == "deadlock" for o in ref[i])]
     sub = [progs[i] for i in sel]
@@ -35,7 +35,16 @@ def run(ctx):
     if len(sub) < 2:
         raise vlib.InfraError("vacuous run: fewer than 2 programs with a reachable deadlock")
     extra = [] if quick else ["--cfg=model-check/max-errors:-1"]
-    res = M.explore_all(ctx, sub, M.REDUCTIONS, extra)
+    # programs with MC_random: every counter-example is asked for, so that replay paths with times_considered > 0 ("a/k") exist
+    israndp = [any(o["op"] == "rand" for a in p["actors"] for o in a) for p in sub]
+    plain = [j for j in range(len(sub)) if not israndp[j]]
+    rnd = [j for j in range(len(sub)) if israndp[j]]
+    res = {}
+    for idxs, ex in ((plain, extra), (rnd, ["--cfg=model-check/max-errors:-1"])):
+        if idxs:
+            part = M.explore_all(ctx, [sub[j] for j in idxs], M.REDUCTIONS, ex)
+            res.update({(idxs[k], red): v for (k, red), v in part.items()})
+    ctx.cov["programs_with_mc_random"] = len(rnd)
     replays, keys = [], []
     nrep = 0
     for (j, red), r in res.items():
@@ -46,7 +55,12 @@ def run(ctx):
         if not r["replays"]:
             ctx.violation("reduction %s reports no counter-example for a program with a reachable deadlock" % red, files=files, signature=sig + ":none")
             continue
-        for pi, path in enumerate(r["replays"][: (1 if quick else 4)]):
+        chosen = list(range(min(len(r["replays"]), 1 if quick else 4)))
+        multi = [pi for pi, path in enumerate(r["replays"]) if "/" in path]      # an outcome other than the first was taken
+        chosen += [pi for pi in multi[:2] if pi not in chosen]
+        ctx.cov["replay_paths_with_times_considered"] = ctx.cov.get("replay_paths_with_times_considered", 0) + len([pi for pi in chosen if pi in multi])
+        for pi in chosen:
+            path = r["replays"][pi]
             ce = r["counterexamples"][pi] if pi < len(r["counterexamples"]) else []
             runs = [M.replay_path(ctx, (j * 10 + pi) * 10 + k, sub[j], path) for k in range(3)]
             nrep += 3
